@@ -164,6 +164,10 @@ func pduGetCmd(p sms.PDU) []int { return be(uint64(p.GetCommand().ToUint32()), 4
 // buildRequest makes a well-formed request of the type with its command id in the header
 func buildRequest(rr *rand.Rand, tn string, flavour int) sms.PDU {
 	a := defaultAssign(rr, tn, true)
+	if tf := tailField(tn); tf != "" && rr.Intn(6) == 0 {
+		// a text that travels in an optional parameter (message_payload and the like): a PDU of several thousand octets
+		a[tf] = fval{tlvs: []tlvVal{{0x0424, randBytes(rr, 3000+rr.Intn(3000))}}}
+	}
 	if flavour != 0 {
 		a["cmd"] = fval{b: []byte{0, 0, 0, byte(flavour)}}
 	}
@@ -472,6 +476,10 @@ func runSessionScript(pkg string, script []map[string]interface{}, rr *rand.Rand
 				continue
 			}
 			b := sent[i]
+			if i%2 == 0 && len(b) > 8 {
+				// the frame before this one was cut short (the peer went away in the middle of it) and was refused
+				dispatchName(pkg, b[:len(b)-1-i%3])
+			}
 			dt, p := dispatchName(pkg, b)
 			e := Ev{"ev": "SRecv", "bytes": B(b), "dtype": dt, "getcmd": []int{}, "site": types[i]}
 			if p != nil {
